@@ -15,9 +15,9 @@ class Driver:
             d = Driver(profile, features, hooks); d.start(); Driver._procs[k] = d
         return Driver._procs[k]
     def build(self):
-        tdir = os.path.join(common.WORK, 'driver-target' + ('' if self.hooks else '-nohooks'))
+        tdir = os.path.join(common.WORK, 'driver-target' + ('' if 'std' in self.features else '-nostd') + ('' if self.hooks else '-nohooks'))
         cmd = ['cargo', 'build', '--offline', '--manifest-path', os.path.join(common.VERIF, 'driver', 'Cargo.toml'),
-               '--target-dir', tdir, '--no-default-features', '--features', ','.join(self.features) if self.features else '']
+               '--target-dir', tdir, '--no-default-features'] + (['--features', ','.join(self.features)] if self.features else [])
         if self.profile == 'release': cmd.append('--release')
         env = common.cargo_env('--cfg ' + common.HOOK_CFG if self.hooks else '')
         with common.Lock('driver-build'):
